@@ -40,6 +40,7 @@ INFO = {
         'QUEUED upload and a free slot coexist',
     ],
 }
+INFO['rule'] += ' Later additions: user pause / re-queue of an upload and repeated requests for the same file (an older upload of a user comes back while a newer one is active).'
 
 GAPS = (0.0, 0.001, 0.04, 0.06, 0.3, 5.0)
 STATUS = {'online': 2, 'away': 1, 'offline': 0, 'unknown': None}
